@@ -131,7 +131,9 @@ func VerifC03_v1join_normal() {
 	if e.released != nil {
 		e.releaseHook()
 	}
-	e.d.main()
+	vTermWatch(e.d.output)
+	vRunSpawned(0)
+	vRunLeftoverSpawned()
 	e.checkSubsequence()
 	vAssert(len(e.emitted) == len(e.items), "C03: the output carries exactly as many elements as were written")
 	vAssert(vIsClosed(e.d.output), "C03: the output is closed after the input was closed and flushed")
@@ -208,7 +210,9 @@ func VerifC16_v1join_stop() {
 	if e.released != nil {
 		vOnBlock(e.released, env)
 	}
-	d.main()
+	vTermWatch(d.output)
+	vRunSpawned(0)
+	vRunLeftoverSpawned()
 	vReach("returned")
 	vAssert(vIsClosed(d.output), "C16: when main completes after Stop/cancel the output is closed")
 	vAssert(vTickerStops() == vTickerCount(), "C19: the ticker is stopped when main returns")
